@@ -1,9 +1,10 @@
 #!/bin/bash
 # seeded_table.sh: for every incoming seeded change, which obligations of its own property's quick check fail
-cd /verif/seeded/_incoming
-for v in $(ls -d C*/[ab]); do
+IN=${IN:-/verif/seeded/_incoming}
+cd $IN
+for v in $(ls -d C*/[a-z]); do
   p=${v%/*}
-  out=$(timeout 900 /verif/tools/try_mutant.sh /verif/seeded/_incoming/$v/patch.diff $p 2>&1)
+  out=$(timeout 900 /verif/tools/try_mutant.sh $IN/$v/patch.diff $p 2>&1)
   n=$(echo "$out" | grep -c "^VIOLATION")
   obl=$(echo "$out" | grep "^VIOLATION" | sed 's|.*replay=/verif/replays/[A-Z0-9]*/||; s|\.json.*||' | head -3 | tr '\n' ' ')
   echo "$v | violations=$n | $obl"
